@@ -1403,6 +1403,7 @@ fn gen_dwarf(seed: u64, endian: RunTimeEndian) -> Result<Secs, String> {
     // entries: first create all entries of all units (so that references can go anywhere)
     let tags = [c::DW_TAG_subprogram, c::DW_TAG_variable, c::DW_TAG_formal_parameter, c::DW_TAG_lexical_block, c::DW_TAG_structure_type,
                 c::DW_TAG_member, c::DW_TAG_pointer_type, c::DW_TAG_typedef, c::DW_TAG_namespace, c::DW_TAG_inlined_subroutine, c::DW_TAG_base_type];
+    let mut vts: Vec<Option<(write::UnitEntryId, Vec<write::UnitEntryId>)>> = Vec::new();
     let mut all: Vec<Vec<write::UnitEntryId>> = Vec::new();
     let mut bases_of: Vec<Vec<write::UnitEntryId>> = Vec::new();
     for (ui, (uid, _)) in unit_ids.iter().enumerate() {
@@ -1425,6 +1426,24 @@ fn gen_dwarf(seed: u64, endian: RunTimeEndian) -> Result<Secs, String> {
             }
             ids.push(id);
         }
+        // "typed vtable" units: a large base type followed by a run of small ones, so that the
+        // small ones sit at unit offsets 2048..2175 (second ULEB128 byte 0x10); see below
+        let vt = if r.chance(1, 4) {
+            let big = unit.add(root, c::DW_TAG_base_type);
+            bases.push(big);
+            ids.push(big);
+            let mut small = Vec::new();
+            for _ in 0..14 {
+                let b = unit.add(root, c::DW_TAG_base_type);
+                bases.push(b);
+                ids.push(b);
+                small.push(b);
+            }
+            Some((big, small))
+        } else {
+            None
+        };
+        vts.push(vt);
         let _ = ui;
         all.push(ids);
         bases_of.push(bases);
@@ -1468,12 +1487,30 @@ fn gen_dwarf(seed: u64, endian: RunTimeEndian) -> Result<Secs, String> {
         // the first few entries of most units carry a non-canonical raw expression: conversion
         // re-encodes it shorter, so the offsets of all later entries SHIFT
         let shifters: Vec<write::UnitEntryId> = if r.chance(4, 5) { locals.iter().filter(|e| !bases.contains(e)).take(r.range(1, 3) as usize).cloned().collect() } else { Vec::new() };
+        // typed vtable unit: the ROOT carries a non-canonical expression (it shrinks on conversion,
+        // so every base type moves), the padding base type has a ~2000 byte name, and some entries
+        // get DW_AT_vtable_elem_location = ONE typed operation naming one of the small base types
+        let vt = vts[ui].clone();
+        let mut vt_users: Vec<write::UnitEntryId> = Vec::new();
+        if let Some((_, small)) = &vt {
+            let x = gen_raw_expr(&mut r, endian);
+            let unit = dwarf.units.get_mut(*uid);
+            let root = unit.root();
+            unit.get_mut(root).set(c::DW_AT_return_addr, write::AttributeValue::Exprloc(x));
+            for &e in locals.iter().filter(|e| !bases.contains(e)).take(6) {
+                let b = *r.pick(small);
+                let mut x = write::Expression::new();
+                if r.chance(1, 2) { x.op_convert(Some(b)) } else { x.op_reinterpret(Some(b)) }
+                unit.get_mut(e).set(c::DW_AT_vtable_elem_location, write::AttributeValue::Exprloc(x));
+                vt_users.push(e);
+            }
+        }
         for &eid in locals.iter() {
             let is_base = bases.contains(&eid);
             let nattr = if is_base { 0 } else { r.below(6) };
             {
-                let nm = format!("e{}", r.below(50));
-                let v = if r.chance(1, 2) { write::AttributeValue::StringRef(dwarf.strings.add(nm.into_bytes())) } else { write::AttributeValue::String(nm.into_bytes()) };
+                let nm = if vt.as_ref().map(|v| v.0 == eid).unwrap_or(false) { "p".repeat(1975) } else { format!("e{}", r.below(50)) };
+                let v = if nm.len() < 100 && r.chance(1, 2) { write::AttributeValue::StringRef(dwarf.strings.add(nm.into_bytes())) } else { write::AttributeValue::String(nm.into_bytes()) };
                 dwarf.units.get_mut(*uid).get_mut(eid).set(c::DW_AT_name, v);
             }
             if shifters.contains(&eid) {
@@ -1482,6 +1519,9 @@ fn gen_dwarf(seed: u64, endian: RunTimeEndian) -> Result<Secs, String> {
             }
             for _ in 0..nattr {
                 let name = *r.pick(&names);
+                if name == c::DW_AT_vtable_elem_location && vt_users.contains(&eid) {
+                    continue;
+                }
                 if files.is_empty() && (name == c::DW_AT_decl_file || name == c::DW_AT_call_file) {
                     continue;
                 }
